@@ -387,6 +387,10 @@ func (reader *DataReader) next() ([]byte, *DataPos, error) {
 	for {
 		// 当前 block 绝对偏移量
 		off := int64(reader.blockID) * blockSize
+		// 文件恰好结束于 block 末尾的填充区域之前
+		if off >= fileSize {
+			return nil, nil, io.EOF
+		}
 		// 当前 block 实际大小
 		size := uint32(min(fileSize-off, blockSize))
 
